@@ -72,6 +72,7 @@ def correspondence(ctx, violations, known_hits):
     r = dbgcommon.run_dbg_cases(ctx, cases, tags, violations, profiles, aux=AUX,
                                 note="model: the status machine advances the reference machine by exactly the promised instructions (C10 theorems)")
     real = dbgcommon.cli_cross(ctx, specs, violations, limit=(30 if ctx.tier == "quick" else 600))
+    r["evaluations"] += real.get("sessions", 0)
     ctx.cleanup()
     return dbgcommon.coverage(r,
         "EXHAUSTIVE command sequences up to length 2 (thorough: 3) over {step, step out, continue, step into k (k in 0,1,2,3,7,100), "
